@@ -84,13 +84,15 @@ func (ledger *FinalityLedger[T]) GetFinality(key LedgerKey) (T, xerrors.XError) 
 func (ledger *FinalityLedger[T]) getFinality(key LedgerKey) (T, xerrors.XError) {
 	var emptyNil T
 
+	// search in finalityItems first:
+	// an item set again after being deleted is in `gotItems` as well as in `removedKeys`.
+	if item, ok := ledger.finalityItems.getGotItem(key); ok {
+		return item, nil
+	}
+
 	// if the item is already removed, return xerrors.ErrNotFoundResult
 	if ledger.finalityItems.isRemovedKey(key) {
 		return emptyNil, xerrors.ErrNotFoundResult
-	}
-
-	if item, ok := ledger.finalityItems.getGotItem(key); ok {
-		return item, nil
 	}
 
 	if item, xerr := ledger.read(key); xerr != nil {
